@@ -548,13 +548,13 @@ fn conversions(run: &mut Run) {
     // Rect corners of very different magnitude / sign (min + (max - min) != max in floating point) and integer rects wider than half the range:
     // every conversion must carry the STORED corners, not values recomputed from width and height
     {
-        let vals: Vec<f64> = vec![-1e16, -73.98, -0.1, 0.0, 0.1, 0.3, 1.0, 12345.678, 1.0000000000000002e16];
+        let vals: Vec<f64> = vec![-1e308, -1e16, -73.98, -0.1, 0.0, 0.1, 0.3, 1.0, 12345.678, 1.0000000000000002e16, f64::MAX];
         let nv = vals.len();
         run.stage("conversions-awkward-rects", nv * nv * nv * nv, |idx, acc| {
             let (x0, y0, x1, y1) = (vals[idx / (nv * nv * nv)], vals[(idx / (nv * nv)) % nv], vals[(idx / nv) % nv], vals[idx % nv]);
             let r = Rect::new(Coord { x: x0, y: y0 }, Coord { x: x1, y: y1 });
             let (mn, mx) = (Coord { x: x0.min(x1), y: y0.min(y1) }, Coord { x: x0.max(x1), y: y0.max(y1) });
-            acc.evals += 4;
+            acc.evals += 6;
             acc.class(format!("awkward rect inexact-width{}", mn.x + (mx.x - mn.x) != mx.x || mn.y + (mx.y - mn.y) != mx.y));
             let want = vec![Coord { x: mx.x, y: mn.y }, Coord { x: mx.x, y: mx.y }, Coord { x: mn.x, y: mx.y }, Coord { x: mn.x, y: mn.y }, Coord { x: mx.x, y: mn.y }];
             let mut bad = |what: &str, detail: String| acc.viol(format!("conversion {} (corners of very different magnitude)", what), idx, || json!({"rect": format!("{:?}", r), "detail": detail}));
@@ -578,6 +578,22 @@ fn conversions(run: &mut Run) {
             match Rect::try_from(Geometry::from(r)) {
                 Ok(x) if x == r => {}
                 other => bad("Geometry::from(Rect) round trip", format!("{:?}", other)),
+            }
+            // split_x / split_y: both halves are Rects (min <= max in both components, whatever happens to the midpoint when the width overflows); when the
+            // midpoint is finite they share it and keep the outer corners
+            for (name, [h1, h2], horizontal) in [("split_x", r.split_x(), true), ("split_y", r.split_y(), false)] {
+                for h in [h1, h2] {
+                    if !(h.min().x <= h.max().x && h.min().y <= h.max().y) {
+                        bad(&format!("Rect::{} returns a half with min > max", name), format!("{:?}", h));
+                    }
+                }
+                let mid = if horizontal { mn.x + (mx.x - mn.x) / 2.0 } else { mn.y + (mx.y - mn.y) / 2.0 };
+                if mid.is_finite() {
+                    let ok = if horizontal { h1.min() == mn && h2.max() == mx && h1.max().x == mid && h2.min().x == mid && h1.max().y == mx.y && h2.min().y == mn.y } else { h1.min() == mn && h2.max() == mx && h1.max().y == mid && h2.min().y == mid && h1.max().x == mx.x && h2.min().x == mn.x };
+                    if !ok {
+                        bad(&format!("Rect::{} halves do not partition the rectangle at its midpoint", name), format!("{:?} {:?}", h1, h2));
+                    }
+                }
             }
             // integer twin over the full i32 range
             let iv = |v: f64| -> i32 { if v <= -1e16 { i32::MIN } else if v >= 1e16 { i32::MAX } else { (v * 1000.0) as i32 } };
